@@ -59,6 +59,34 @@ fn gen_hist(rng: &mut Rng) -> Hist {
         }
     }
     let mut ts = rng.u32_boundary();
+    // one history in 400 first opens more than a thousand chunk streams (the six of the pool first,
+    // then 1,100 others, one small single-chunk message each): whatever a deserializer remembers
+    // per chunk stream must still be there when the early ones are used again
+    if rng.chance(1, 400) {
+        let mut ids: Vec<u32> = pool.clone();
+        let mut c = 2u32;
+        while ids.len() < 6 + 1100 {
+            if !pool.contains(&c) {
+                ids.push(c);
+            }
+            c += 1;
+        }
+        for (i, csid) in ids.iter().enumerate() {
+            let m = Msg { type_id: 8, msid: 1, ts: ts.wrapping_add(i as u32), data: vec![(i & 0xFF) as u8; (i % 3).min(cs)] };
+            let c = Choice { csid: *csid, form: CsidForm::Min, fmt: 0 };
+            let chunks = enc.encode(&m, &c);
+            let idx = msgs.len();
+            for ch in chunks {
+                wire_chunks.push((idx, ch));
+            }
+            if steady && i < 6 {
+                clocks.insert(*csid, (m.ts, 20, 8, 1, m.data.len()));
+            }
+            msgs.push(m);
+            csids_all.push(*csid);
+        }
+        ts = ts.wrapping_add(2000);
+    }
     for _ in 0..rounds {
         let nmsg = rng.usize(2, 6);
         let mut group: Vec<Vec<Vec<u8>>> = Vec::new();
@@ -482,7 +510,7 @@ impl Check for C16 {
         run_hist(h, rng, out);
     }
     fn rule(&self) -> String {
-        "1-3 rounds of 2-6 messages (1-9 chunks each, chunk sizes {1,2,5,16,128,200}) on distinct chunk stream ids of all three csid forms, encoded by the independent encoder and interleaved by a scheduler that keeps each message's chunks in order: no-overlap, audio-inside-video, round-robin, pairwise, random. Case 0: three 9 MiB messages in flight at once at chunk size 1 MiB, round-robin (more unfinished data than one maximum-size message). A quarter of the histories instead interleave 1-4 messages (0-3000 bytes) per round with up to five in-band SetChunkSize messages on chunk stream 2 placed between chunks of the messages in flight (new sizes {1, 2, 5, 16, 100, 128, 200, 300, 1000, 4096, 65536, 2^31-1}: below, at and above the lengths in flight); every later chunk, also of messages already begun, is cut at the new size, and the deserializer is told the new size when the SetChunkSize message is delivered, as the sessions do. In a fifth of the multi-chunk messages that start with a type-0 header the continuation chunks repeat that full header instead of using type 3. One message in twelve is an Abort (type 2) naming a chunk stream id of its group - to the deserializer a message like any other, since the sender goes on with the message it names. Payload bytes are tagged with their message index. Expected deliveries (each message when its last chunk arrives) come from independent per-csid reassembly. The stream is fed in two phases around the first overlap point (first chunk arriving on a csid while another csid has a partial message), each in 3 partitions. distinct = (messages, schedule, first-overlap offset bucket, chunk count).".to_string()
+        "1-3 rounds of 2-6 messages (1-9 chunks each, chunk sizes {1,2,5,16,128,200}) on distinct chunk stream ids of all three csid forms, encoded by the independent encoder and interleaved by a scheduler that keeps each message's chunks in order: no-overlap, audio-inside-video, round-robin, pairwise, random. Case 0: three 9 MiB messages in flight at once at chunk size 1 MiB, round-robin (more unfinished data than one maximum-size message). A quarter of the histories instead interleave 1-4 messages (0-3000 bytes) per round with up to five in-band SetChunkSize messages on chunk stream 2 placed between chunks of the messages in flight (new sizes {1, 2, 5, 16, 100, 128, 200, 300, 1000, 4096, 65536, 2^31-1}: below, at and above the lengths in flight); every later chunk, also of messages already begun, is cut at the new size, and the deserializer is told the new size when the SetChunkSize message is delivered, as the sessions do. In a fifth of the multi-chunk messages that start with a type-0 header the continuation chunks repeat that full header instead of using type 3. One history in 400 first opens 1,106 chunk streams with one small message each. One message in twelve is an Abort (type 2) naming a chunk stream id of its group - to the deserializer a message like any other, since the sender goes on with the message it names. Payload bytes are tagged with their message index. Expected deliveries (each message when its last chunk arrives) come from independent per-csid reassembly. The stream is fed in two phases around the first overlap point (first chunk arriving on a csid while another csid has a partial message), each in 3 partitions. distinct = (messages, schedule, first-overlap offset bucket, chunk count).".to_string()
     }
     fn assumptions(&self) -> Vec<String> {
         vec![
